@@ -42,3 +42,5 @@ package expect
 // (decoding into a variable that still holds the previous message would merge
 // the two objects).
 //@   callpre[C19] Unmarshal: backing(arg0) == backing(line) ==> is(arg1, *interface{}) && as(arg1, *interface{}) != nil && isnil(*as(arg1, *interface{}))
+// The step succeeds only when no expected output is outstanding.
+//@   ensures[C19] complete: err == nil ==> need == 0
